@@ -1,0 +1,7 @@
+//go:build !verif
+
+package file
+
+func verifSched(point string) {}
+
+func verifEvent(event string) {}
